@@ -383,6 +383,15 @@ class FlowEvaluator(Evaluator):
                     if cattr is not None:
                         return cattr
                     raise AttributeError(f"{base._cls} object has no attribute {e.attr}")
+                if isinstance(base, ClassRef):
+                    if e.attr == "__name__":
+                        return base.name
+                    if (base.name, e.attr) in self.class_attrs:
+                        return self.class_attrs[(base.name, e.attr)]
+                    m = self.methods.get((base.name, e.attr))
+                    if m is not None:
+                        return Closure(m, {})
+                    raise AttributeError(f"type object {base.name} has no attribute {e.attr}")
                 if base is None:
                     raise AttributeError(f"NoneType object has no attribute {e.attr}")
                 raise Unsupported(f"attribute {e.attr} on {type(base).__name__}")
@@ -550,6 +559,28 @@ class FlowEvaluator(Evaluator):
         f = e.func
         if isinstance(f, ast.Name) and f.id == "isinstance" and len(e.args) == 2 and f.id not in env:
             return self._isinstance2(self.expr(e.args[0], env), e.args[1], env)
+        if isinstance(f, ast.Name) and f.id in ("getattr", "hasattr") and f.id not in env and len(e.args) in (2, 3) and not e.keywords:
+            base = self.expr(e.args[0], env)
+            name = self.expr(e.args[1], env)
+            if not isinstance(name, str):
+                raise Unsupported("getattr with a non-string name")
+            probe = ast.copy_location(ast.Attribute(value=ast.Name(id="__sa_obj", ctx=ast.Load()), attr=name, ctx=ast.Load()), e)
+            env2 = dict(env)
+            env2["__sa_obj"] = base
+            try:
+                v = self.expr(probe, env2)
+            except AttributeError:
+                if f.id == "hasattr":
+                    return False
+                if len(e.args) == 3:
+                    return self.expr(e.args[2], env)
+                raise
+            return True if f.id == "hasattr" else v
+        if isinstance(f, ast.Name) and f.id == "type" and f.id not in env and len(e.args) == 1 and not e.keywords:
+            v = self.expr(e.args[0], env)
+            if isinstance(v, Obj):
+                return ClassRef(v._cls)
+            raise Unsupported("type() of a non-instance")
         # callee first (Python order), then arguments
         callee = None
         method_of = None
@@ -672,46 +703,59 @@ _STUBS = {"Error": ErrorStub, "Highlight": HighlightStub, "Token": TokenStub}
 class LexerSim:
     """One Lexer instance over a stub File with the given source text."""
 
+    _STATIC: Dict[int, Dict[str, Any]] = {}
+
     def __init__(self, prog: Program, source: str, parsers=None, max_steps=400000):
         self.prog = prog
         self.cls = prog.cls("Lexer")
         self.mod: Mod = self.cls.mod
         self.trace: List[Tuple] = []
-        methods = {}
-        for cname, c in prog.classes.items():
-            if cname == "Lexer" or prog.is_sub("Lexer", cname):
-                for mname, fn in c.methods.items():
-                    methods.setdefault((("Lexer"), mname), fn.node)
-        modules = {}
-        for alias, (src, orig) in self.mod.imports.items():
-            if orig is None and src == "re":
-                modules[alias] = _RE_MODULE
-            elif orig is None and src == "string":
-                modules[alias] = _STRING_MODULE
+        st = LexerSim._STATIC.get(id(prog))
+        if st is None or st["prog"] is not prog:
+            st = {"prog": prog, "methods": {}, "modules": {}, "globals": {}, "class_attrs": None}
+            for cname, c in prog.classes.items():
+                if cname == "Lexer" or prog.is_sub("Lexer", cname):
+                    for mname, fn in c.methods.items():
+                        st["methods"].setdefault(("Lexer", mname), fn.node)
+            for alias, (src, orig) in self.mod.imports.items():
+                if orig is None and src == "re":
+                    st["modules"][alias] = _RE_MODULE
+                elif orig is None and src == "string":
+                    st["modules"][alias] = _STRING_MODULE
+            LexerSim._STATIC[id(prog)] = st
+        methods = st["methods"]
         self.ev = FlowEvaluator(methods, max_steps=max_steps, resolve_global=self._resolve, exc_is_sub=self._exc_is_sub,
-                                modules=modules)
+                                modules=st["modules"])
+        self.ev.globals = st["globals"]            # resolved module-level names are immutable values: shared between runs
         self.errors = ErrorsStub(self.trace)
         self.file = Obj("File", source=source, errors=self.errors, path="sim.c", basename="sim.c", name="sim.c")
         self.me = Obj("Lexer")
         init = methods.get(("Lexer", "__init__"))
         if init is None:
             raise Unsupported("Lexer.__init__ not found")
-        self._guard(lambda: self.ev.invoke(init, [self.me, self.file], {}))
+        out = self._guard(lambda: self.ev.invoke(init, [self.me, self.file], {}))
+        if out.kind != "ok":
+            raise Unsupported(f"Lexer.__init__ raises {out.exc}")
         if parsers is not None:
             self.me.__dict__["parsers"] = tuple(parsers)
         else:
             e = self.cls.attrs.get("parsers")
             if isinstance(e, (ast.Tuple, ast.List)) and all(isinstance(x, ast.Name) and x.id in self.cls.methods for x in e.elts):
                 self.me.__dict__["parsers"] = tuple(Closure(self.cls.methods[x.id].node, {}) for x in e.elts)
-        # other class-level constants of Lexer (folded lazily on first use is not needed: few and simple)
-        for nm, val in self.cls.attrs.items():
-            if nm == "parsers":
-                continue
-            try:
-                from .fold import fold
-                self.ev.class_attrs[("Lexer", nm)] = _to_runtime(fold(val, self.mod))
-            except (Unknown, RecursionError):
-                pass
+        if st["class_attrs"] is None:
+            st["class_attrs"] = {}
+            from .fold import fold
+            for nm, val in self.cls.attrs.items():
+                if nm == "parsers":
+                    continue
+                try:
+                    st["class_attrs"][("Lexer", nm)] = _to_runtime(fold(val, self.mod))
+                except (Unknown, RecursionError):
+                    pass
+        self.ev.class_attrs = st["class_attrs"]
+        if "parsers" in self.me.__dict__:
+            self.ev.class_attrs = dict(st["class_attrs"])
+            self.ev.class_attrs[("Lexer", "parsers")] = self.me.__dict__["parsers"]
 
     # -- global names of lexer/lexer.py -------------------------------------------------------------
     def _exc_is_sub(self, name: str, base: str) -> bool:
@@ -726,6 +770,8 @@ class LexerSim:
                     return _STUBS[nm]
                 if self.prog.is_sub(nm, "Exception") or any(b in ("Exception", "BaseException") for b in self._all_bases(nm)):
                     return ExcClass(nm)
+                if nm == "Lexer":
+                    return ClassRef("Lexer")
                 raise Unsupported(f"class {nm} has no stand-in")
             if nm in m.functions:
                 return Closure(m.functions[nm].node, {})
